@@ -6,11 +6,17 @@ LocalLink with 0..1 peer controllers. Programs of HCI command packets (every reg
 with arbitrary field values, unregistered opcodes, procedure commands with situational
 parameters) are issued by 1..6 concurrent callers through Host.send_command; the oracle is an
 invariant over the tapped HCI history.
+
+Directed families (second round): procedures on live links - an LE and a BR/EDR link to a peer that answers and
+comes back after a disconnection (link_programs); CIS set-up as a central with a peer whose host accepts after a
+think time, met by commands that touch the CIG / the ACL / the CIS while it is pending (cis_programs); a controller
+that withholds the HCI command credit and returns it with a Command Complete for opcode 0 (credit_programs).
 """
 
 from __future__ import annotations
 
 import asyncio
+import itertools
 
 from hypothesis import strategies as st
 
@@ -30,19 +36,50 @@ RULE = (
     'procedure commands, distributed over 1..6 concurrent callers, with generated order-preserving HCI '
     'delays, controller capability variants and link situations (no peer / advertising peer / connected '
     'peer / peer leaving the link); every registered class is also sent once alone (registry '
-    'enumerated). non-trivial = >=2 commands and (>=2 callers or non-zero delay or an '
-    'unregistered/unhandled opcode or a procedure command); distinct by (packets, caller assignment, delays).'
+    'enumerated). Three directed families on top: link programs (an LE link on handle 1 AND a BR/EDR link on handle 2 '
+    'to a peer that answers, advertises every second and comes back: remote feature / name reads with the page number '
+    'aimed at the peer\'s last page and beyond it, encryption, disconnection, the link created again on the handle '
+    'used before and used again, with the peer leaving half-way in one case of five); CIS programs (LE Set CIG '
+    'Parameters for 1..3 CISes, LE Create CIS over the live ACL for 1..n of the handles handed out, then 0..3 '
+    'commands that meet the pending or finished set-up: remove / re-configure the CIG, disconnect the ACL or a CIS '
+    'handle, a second LE Create CIS, an ISO data path; the peer\'s host accepts each request after 0 / 0.2 / 3 / 30 s); '
+    'credit programs (the general programs against a controller that answers with Num_HCI_Command_Packets = 0 in a '
+    'generated pattern and returns the credit in a Command Complete for opcode 0 after 0..60 ms). '
+    'non-trivial = >=2 commands and (>=2 callers or non-zero delay or an '
+    'unregistered/unhandled opcode or a procedure command); distinct by (packets, caller assignment, delays, peer '
+    'think time, credit pattern). Floors: every procedure kind of the statement is accepted as pending >= 15 times and '
+    'ends with success >= 10 times, pages within / beyond the peer\'s range, a disconnected BR/EDR link, a link that '
+    'comes back on a used handle, withheld credits under concurrent callers.'
 )
 ASSUMPTIONS = [
     'delays are order-preserving (as the property states); "eventually" is decided as: no stall and '
     'completion within the virtual-time horizon',
     'an LE connection creation towards a peer that never advertises is concluded by cancelling it '
     '(a controller has no timeout for it); the cancel must then produce the LE Connection Complete',
-    'Num_HCI_Command_Packets is 1 in the virtual controller',
+    'Num_HCI_Command_Packets is 1 in the virtual controller; in the credit programs the tap rewrites that field and '
+    'injects the opcode-0 Command Complete events, only ever right after an answer that carried 0 (the credit is '
+    'returned exactly once); there the clauses of the statement are judged as everywhere else (at most one command '
+    'outstanding, own response, nobody waits forever) - whether the host also honours the 0 is not part of the statement',
+    'a present peer has a host that answers what it is asked: it accepts classic connection requests at once and CIS '
+    'requests after the generated think time (a peer that never answers is not one of the link situations of the '
+    'property, and the virtual controller has no accept timeout)',
+    'the CIS handles named in LE Create CIS are predicted by the generator (lowest free handles after the links of '
+    'the situation); the floor on accepted CIS set-ups fails if the controller ever allocates differently',
 ]
 SHRINK_KEYS = ('program',)
 
 HORIZON = 400.0
+# link situations: which of them have a peer, an LE link (handle 1), a BR/EDR link on top (handle 2), a peer that
+# leaves the link in the middle of the program, a peer that advertises every second and again after every
+# connection event (so that connection creation inside the program succeeds and a link can come back)
+SIT_LE_LINK = ('connected', 'peer_leaves', 'dual', 'dual_peer_leaves')
+SIT_CLASSIC_LINK = ('dual', 'dual_peer_leaves')
+SIT_LEAVES = ('peer_leaves', 'dual_peer_leaves')
+SIT_FAST_ADV = ('adv_fast', 'dual', 'dual_peer_leaves')
+ABSENT_PUBLIC = hci.Address('0A:0B:0C:0D:0E:0F', hci.Address.PUBLIC_DEVICE_ADDRESS)
+# optional keys of a case (absent in the cases of the first generator families and in the committed replays)
+OPTIONAL_KEYS = ('cis_accept', 'credit')
+NOP_CREDIT = bytes([0x04, 0x0E, 0x03, 0x01, 0x00, 0x00])  # Command Complete, Num_HCI_Command_Packets=1, opcode 0
 VICTIM_RANDOM = hci.Address('C0:00:00:00:00:00')
 PEER_RANDOM = hci.Address('C1:01:01:01:01:01')
 PEER_PUBLIC = hci.Address('F1:F1:F1:F1:F1:F1', hci.Address.PUBLIC_DEVICE_ADDRESS)
@@ -201,6 +238,145 @@ def program_strategy():
     )
 
 
+def _le_create_connection(peer_address, own_address_type=1):
+    return hci.HCI_LE_Create_Connection_Command(
+        le_scan_interval=96, le_scan_window=96, initiator_filter_policy=0, peer_address_type=1,
+        peer_address=peer_address, own_address_type=own_address_type, connection_interval_min=12,
+        connection_interval_max=24, max_latency=0, supervision_timeout=72, min_ce_length=0, max_ce_length=0)
+
+
+_DELAYS = st.lists(st.sampled_from([0, 0, 0, 1, 7, 50]), min_size=0, max_size=6)
+
+
+def link_programs():
+    """Strategy: procedure commands aimed at LIVE links. The situation has an LE link (handle 1) and a BR/EDR link
+    (handle 2) to a peer that answers, advertises every second and comes back after a disconnection, so inside one
+    program links are read from, encrypted, disconnected, created again (the handle is re-used) and read from again.
+    Remote feature pages are aimed at the peer's last page and beyond it (0,1,3 | 4,5,0x80,0xFF)."""
+    H = hci
+    handle = st.sampled_from([1, 1, 1, 2, 2, 2, 2, 3, 0x0EFF])
+    page = st.sampled_from([0, 1, 3, 3, 4, 4, 5, 0x80, 0xFF])
+    reason = st.sampled_from([0x13, 0x13, 0x05, 0x15, 0x1A])
+    baddr = st.sampled_from([PEER_PUBLIC, PEER_PUBLIC, PEER_PUBLIC, ABSENT_PUBLIC])
+    laddr = st.sampled_from([PEER_RANDOM, PEER_RANDOM, PEER_RANDOM, hci.Address('C5:05:05:05:05:05')])
+    procs = [hci.HCI_Command.command_classes[k] for k in sorted(PROCEDURES) if k in hci.HCI_Command.command_classes]
+    directed = st.one_of(
+        handle.map(lambda h: H.HCI_Read_Remote_Supported_Features_Command(connection_handle=h)),
+        handle.map(lambda h: H.HCI_Read_Remote_Supported_Features_Command(connection_handle=h)),
+        st.tuples(handle, page).map(
+            lambda d: H.HCI_Read_Remote_Extended_Features_Command(connection_handle=d[0], page_number=d[1])),
+        st.tuples(handle, page).map(
+            lambda d: H.HCI_Read_Remote_Extended_Features_Command(connection_handle=d[0], page_number=d[1])),
+        st.tuples(handle, page).map(
+            lambda d: H.HCI_Read_Remote_Extended_Features_Command(connection_handle=d[0], page_number=d[1])),
+        handle.map(lambda h: H.HCI_LE_Read_Remote_Features_Command(connection_handle=h)),
+        handle.map(lambda h: H.HCI_LE_Enable_Encryption_Command(
+            connection_handle=h, random_number=bytes(8), encrypted_diversifier=0, long_term_key=bytes(16))),
+        handle.map(lambda h: H.HCI_LE_Enable_Encryption_Command(
+            connection_handle=h, random_number=bytes(8), encrypted_diversifier=0, long_term_key=bytes(16))),
+        st.tuples(handle, reason).map(lambda d: H.HCI_Disconnect_Command(connection_handle=d[0], reason=d[1])),
+        st.tuples(handle, reason).map(lambda d: H.HCI_Disconnect_Command(connection_handle=d[0], reason=d[1])),
+        baddr.map(lambda a: H.HCI_Remote_Name_Request_Command(
+            bd_addr=a, page_scan_repetition_mode=1, reserved=0, clock_offset=0)),
+        st.tuples(baddr, st.integers(0, 1)).map(lambda d: H.HCI_Create_Connection_Command(
+            bd_addr=d[0], packet_type=0xCC18, page_scan_repetition_mode=1, reserved=0, clock_offset=0,
+            allow_role_switch=d[1])),
+        st.tuples(laddr, st.integers(0, 1)).map(lambda d: _le_create_connection(d[0], d[1])),
+        st.just(H.HCI_LE_Create_Connection_Cancel_Command()),
+        st.tuples(baddr, st.integers(0, 1)).map(lambda d: H.HCI_Switch_Role_Command(bd_addr=d[0], role=d[1])),
+        st.just(H.HCI_Read_BD_ADDR_Command()),
+    ).map(bytes)
+    cmd = st.one_of(directed, directed, directed, st.sampled_from(procs).flatmap(class_packet))
+    free = st.lists(st.tuples(cmd, st.integers(0, 2)), min_size=2, max_size=10)
+    # a link goes down and is created again (same peer, so the handle is used a second time), then it is used
+    le_again = st.tuples(st.just((bytes(H.HCI_Disconnect_Command(connection_handle=1, reason=0x13)), 0)),
+                         st.just((bytes(_le_create_connection(PEER_RANDOM)), 0)))
+    classic_again = st.tuples(
+        st.just((bytes(H.HCI_Disconnect_Command(connection_handle=2, reason=0x13)), 0)),
+        st.just((bytes(H.HCI_Create_Connection_Command(
+            bd_addr=PEER_PUBLIC, packet_type=0xCC18, page_scan_repetition_mode=1, reserved=0, clock_offset=0,
+            allow_role_switch=1)), 0)))
+    again = st.tuples(st.one_of(le_again, classic_again), st.lists(st.tuples(cmd, st.integers(0, 2)), min_size=1, max_size=6)
+                      ).map(lambda d: list(d[0]) + d[1])
+    return st.fixed_dictionaries(
+        {
+            'situation': st.sampled_from(['dual', 'dual', 'dual', 'dual_peer_leaves', 'adv_fast']),
+            'extended': st.booleans(),
+            'delays': _DELAYS,
+            'callers': st.sampled_from([1, 1, 1, 2, 3]),
+            'program': st.one_of(free, free, again),
+        }
+    )
+
+
+def _set_cig(cig_id, cis_ids):
+    n = len(cis_ids)
+    return hci.HCI_LE_Set_CIG_Parameters_Command(
+        cig_id=cig_id, sdu_interval_c_to_p=10000, sdu_interval_p_to_c=10000, worst_case_sca=0, packing=0, framing=0,
+        max_transport_latency_c_to_p=10, max_transport_latency_p_to_c=10, cis_id=list(cis_ids),
+        max_sdu_c_to_p=[100] * n, max_sdu_p_to_c=[100] * n, phy_c_to_p=[1] * n, phy_p_to_c=[1] * n,
+        rtn_c_to_p=[1] * n, rtn_p_to_c=[1] * n)
+
+
+CIS_FOLLOW_UPS = ('remove_cig', 'remove_other_cig', 'set_cig_same', 'set_cig_other_ids', 'disconnect_acl',
+                  'disconnect_cis', 'disconnect_last_cis', 'create_cis_again', 'iso_path', 'read_remote', 'read')
+
+
+def cis_programs():
+    """Strategy: CIS set-up as a central. LE Set CIG Parameters (1..3 CISes), LE Create CIS for 1..n of the handles
+    the controller hands out (the harness predicts them: the lowest free handles) over the live ACL (sometimes an
+    unknown one), then 0..3 commands that meet the set-up while it is pending or after it: remove / re-configure the
+    CIG, disconnect the ACL or a CIS handle, a second LE Create CIS, an ISO data path, unrelated commands. The peer's
+    host accepts each CIS request after a generated think time (0 / 0.2 / 3 / 30 s), the peer may leave the link."""
+    H = hci
+
+    def build(d):
+        sit, cig_id, n, k, acl, follow, accept, callers, delays, whos, extended = d
+        first = 3 if sit in SIT_CLASSIC_LINK else 2  # LE link = 1, BR/EDR link = 2, then the CIS handles
+        handles = list(range(first, first + n))
+        k = min(k, n)
+        create = H.HCI_LE_Create_CIS_Command(cis_connection_handle=handles[:k], acl_connection_handle=[acl] * k)
+        program = [[bytes(_set_cig(cig_id, list(range(n)))), 0], [bytes(create), 0]]
+        for i, f in enumerate(follow):
+            cmd = {
+                'remove_cig': lambda: H.HCI_LE_Remove_CIG_Command(cig_id=cig_id),
+                'remove_other_cig': lambda: H.HCI_LE_Remove_CIG_Command(cig_id=cig_id ^ 1),
+                'set_cig_same': lambda: _set_cig(cig_id, list(range(n))),
+                'set_cig_other_ids': lambda: _set_cig(cig_id, [7, 8][: max(1, n - 1)]),
+                'disconnect_acl': lambda: H.HCI_Disconnect_Command(connection_handle=1, reason=0x13),
+                'disconnect_cis': lambda: H.HCI_Disconnect_Command(connection_handle=handles[0], reason=0x13),
+                'disconnect_last_cis': lambda: H.HCI_Disconnect_Command(connection_handle=handles[-1], reason=0x13),
+                'create_cis_again': lambda: create,
+                'iso_path': lambda: H.HCI_LE_Setup_ISO_Data_Path_Command(
+                    connection_handle=handles[0], data_path_direction=0, data_path_id=0,
+                    codec_id=H.CodingFormat(H.CodecID.TRANSPARENT), controller_delay=0, codec_configuration=b''),
+                'read_remote': lambda: H.HCI_LE_Read_Remote_Features_Command(connection_handle=1),
+                'read': lambda: H.HCI_Read_BD_ADDR_Command(),
+            }[f]()
+            program.append([bytes(cmd), whos[i % len(whos)]])
+        return {'situation': sit, 'extended': extended, 'delays': delays, 'callers': callers, 'program': program,
+                'cis_accept': accept}
+
+    return st.tuples(
+        st.sampled_from(['connected', 'connected', 'dual', 'peer_leaves']), st.sampled_from([0, 1]),
+        st.integers(1, 3), st.integers(1, 3), st.sampled_from([1, 1, 1, 1, 1, 0x0EFF]),
+        st.lists(st.sampled_from(CIS_FOLLOW_UPS), min_size=0, max_size=3),
+        st.sampled_from([0, 0, 0.2, 3, 30]), st.sampled_from([1, 1, 1, 2, 3]), _DELAYS,
+        st.lists(st.integers(0, 2), min_size=1, max_size=3), st.booleans()).map(build)
+
+
+def credit_programs():
+    """Strategy: the general programs, sent to a controller that withholds the command credit: the k-th Command
+    Complete / Command Status carries Num_HCI_Command_Packets = pattern[k mod len]; after a 0 the credit is returned
+    by a Command Complete event for opcode 0 (the only thing that event is ever used for), 0 / 1 / 7 / 60 ms later."""
+    credit = st.fixed_dictionaries({
+        'pattern': st.lists(st.sampled_from([0, 0, 1]), min_size=1, max_size=5),
+        'nop_delay': st.sampled_from([0, 0, 1, 7, 60]),
+    })
+    return st.tuples(program_strategy(), credit, st.integers(2, 6)).map(
+        lambda d: {**d[0], 'credit': d[1], 'callers': max(d[0]['callers'], d[2] if len(d[0]['program']) > 1 else 1)})
+
+
 # ---------------------------------------------------------------------------
 # one case
 # ---------------------------------------------------------------------------
@@ -228,6 +404,7 @@ def run_case(ctx, case) -> None:
 
     def fail(sig, what):
         ctx.fail(sig, what, {'kind': 'program', **{k: case[k] for k in ('situation', 'extended', 'delays', 'callers')},
+                             **{k: case[k] for k in OPTIONAL_KEYS if case.get(k) is not None},
                              'program': [[p, c] for p, c in program]})
 
     async def setup():
@@ -273,15 +450,40 @@ def run_case(ctx, case) -> None:
                 )
 
             peer.host.on('connection_request', on_connection_request)
+            if case.get('cis_accept') is not None:
+                # a present peer's host answers CIS requests: it accepts them after the generated think time
+                def on_cis_request(_acl, cis_handle, _cig, _cis, peer=peer, wait=float(case['cis_accept'])):
+                    async def accept():
+                        if wait:
+                            await asyncio.sleep(wait)
+                        try:
+                            await peer.host.send_command(
+                                hci.HCI_LE_Accept_CIS_Request_Command(connection_handle=cis_handle))
+                        except Exception:  # noqa: BLE001 - the peer's own trouble (link gone meanwhile)
+                            pass
+
+                    loop.create_task(accept())
+
+                peer.host.on('cis_request', on_cis_request)
+            adv_interval = 1000 if situation in SIT_FAST_ADV else 0x4000
+            if situation in SIT_FAST_ADV:
+                # the peer comes back: it advertises again after every connection / disconnection
+                def readvertise(*_a, peer=peer):
+                    if not state.get('peer_left'):
+                        loop.create_task(
+                            peer.host.send_command(hci.HCI_LE_Set_Advertising_Enable_Command(advertising_enable=1)))
+
+                peer.host.on('le_connection', readvertise)
+                peer.host.on('disconnection', readvertise)
             await peer.host.send_sync_command(
                 hci.HCI_LE_Set_Advertising_Parameters_Command(
-                    advertising_interval_min=0x4000, advertising_interval_max=0x4000, advertising_type=0,
+                    advertising_interval_min=adv_interval, advertising_interval_max=adv_interval, advertising_type=0,
                     own_address_type=1, peer_address_type=0, peer_address=hci.Address.ANY,
                     advertising_channel_map=7, advertising_filter_policy=0,
                 )
             )
             await peer.host.send_sync_command(hci.HCI_LE_Set_Advertising_Enable_Command(advertising_enable=1))
-        if situation in ('connected', 'peer_leaves'):
+        if situation in SIT_LE_LINK:
             fut = loop.create_future()
             host.once('le_connection', lambda handle, *a: fut.done() or fut.set_result(handle))
             await host.send_async_command(
@@ -295,6 +497,41 @@ def run_case(ctx, case) -> None:
             state['handle'] = await fut
             # the peer advertises again so that further connection attempts find it
             await peer.host.send_sync_command(hci.HCI_LE_Set_Advertising_Enable_Command(advertising_enable=1))
+        if situation in SIT_CLASSIC_LINK:
+            # a BR/EDR link to the same peer on top (the peer's host accepts the request)
+            fut = loop.create_future()
+            host.once('classic_connection', lambda handle, *a: fut.done() or fut.set_result(handle))
+            await host.send_async_command(
+                hci.HCI_Create_Connection_Command(
+                    bd_addr=PEER_PUBLIC, packet_type=0xCC18, page_scan_repetition_mode=1, reserved=0,
+                    clock_offset=0, allow_role_switch=1,
+                )
+            )
+            state['classic_handle'] = await fut
+        credit = case.get('credit')
+        if credit:
+            # a controller that withholds the command credit: the k-th answer carries Num_HCI_Command_Packets =
+            # pattern[k]; after a 0 the credit comes back in a Command Complete for opcode 0, nop_delay units later
+            pattern = [int(x) for x in credit['pattern']] or [1]
+            nop_delay = float(credit.get('nop_delay', 0)) * tap.unit
+            answered = itertools.count()
+
+            def withhold(direction, packet):
+                if direction != world.C2H or packet[0] != 0x04 or packet[1] not in (0x0E, 0x0F) or len(packet) < 6:
+                    return packet
+                at = 3 if packet[1] == 0x0E else 4
+                if int.from_bytes(packet[at + 1:at + 3], 'little') == 0:
+                    return packet
+                n = pattern[next(answered) % len(pattern)]
+                if n == 0:
+                    state['credits_withheld'] = state.get('credits_withheld', 0) + 1
+                    if nop_delay:
+                        loop.call_later(nop_delay, tap.to_host.on_packet, NOP_CREDIT)
+                    else:
+                        loop.call_soon(tap.to_host.on_packet, NOP_CREDIT)
+                return packet[:at] + bytes([n]) + packet[at + 1:]
+
+            tap.filters.append(withhold)
         # from here on the tap applies the generated delays
         tap._delays = {world.H2C: tap._cycle(delays, 0), world.C2H: tap._cycle(delays, 1)}
         state.update(link=link, ctrl=ctrl, tap=tap, host=host, peer=peer, mark=len(tap.log))
@@ -313,7 +550,7 @@ def run_case(ctx, case) -> None:
                 raise
             except Exception as e:
                 results[i] = ('exc', type(e).__name__, str(e)[:80])
-            if situation == 'peer_leaves' and state.get('peer') is not None and i >= len(program) // 2:
+            if situation in SIT_LEAVES and state.get('peer') is not None and i >= len(program) // 2:
                 # the peer disappears from the link in the middle of the program
                 try:
                     state['link'].remove_controller(state['peer'].controller)
@@ -453,6 +690,10 @@ def analyse(ctx, case, program, ncallers, state, results, outcome, loop, fail):
     if ok:
         for kind, op in pending_procedures(log):
             sit = case['situation'] + ('/cancelled' if state.get('cancel_sent') and kind == 'le_connection_complete' else '')
+            if op == hci.HCI_LE_CREATE_CIS_COMMAND:
+                # what met the pending set-up (one bucket per root cause): the first command after the accepted
+                # LE Create CIS that touches the CIG, a CIS or the link
+                sit += _cis_met_by(log)
             fail(f'procedure_not_concluded/{cmd_name(op)}/{sit}',
                  f'{cmd_name(op)} was accepted (Command Status pending) but no {kind} event followed within {HORIZON}s')
             ok = False
@@ -469,9 +710,80 @@ def analyse(ctx, case, program, ncallers, state, results, outcome, loop, fail):
     )
     if len({w % ncallers for _, w in program}) >= 2:
         labels.add('concurrent_callers')
-    ctx.case((case['situation'], case['extended'], case['delays'], ncallers, program), nontrivial, labels,
+    labels |= history_labels(log, state)
+    if state.get('credits_withheld'):
+        labels.add('credit_withheld')
+        if 'concurrent_callers' in labels:
+            labels.add('credit_withheld_concurrent')
+    ctx.case((case['situation'], case['extended'], case['delays'], ncallers, program,
+              [case.get(k) for k in OPTIONAL_KEYS]), nontrivial, labels,
              sample={'situation': case['situation'], 'callers': ncallers, 'delays': case['delays'],
                      'program': [cmd_name(o) for o in ops]})
+
+
+CIS_TOUCHING = (hci.HCI_LE_REMOVE_CIG_COMMAND, hci.HCI_LE_SET_CIG_PARAMETERS_COMMAND, hci.HCI_DISCONNECT_COMMAND,
+                hci.HCI_LE_CREATE_CIS_COMMAND)
+
+
+def _cis_met_by(log) -> str:
+    accepted = False
+    for _t, d, pkt in log:
+        if d == world.C2H and pkt[0] == 0x04 and pkt[1] == 0x0F and len(pkt) >= 7 and pkt[3] == 0 \
+                and int.from_bytes(pkt[5:7], 'little') == hci.HCI_LE_CREATE_CIS_COMMAND:
+            accepted = True
+        elif accepted and d == world.H2C and pkt[0] == 0x01 and int.from_bytes(pkt[1:3], 'little') in CIS_TOUCHING:
+            return '/then_' + cmd_name(int.from_bytes(pkt[1:3], 'little'))
+    return ''
+
+
+def _event_status_handle(pkt):
+    """(status, handle) of a procedure completion event (harness-side table, see completion_kind)."""
+    if pkt[1] == 0x3E:
+        return pkt[4], int.from_bytes(pkt[5:7], 'little')
+    if pkt[1] in (0x07,):  # Remote Name Request Complete carries an address
+        return pkt[3], None
+    return pkt[3], int.from_bytes(pkt[4:6], 'little')
+
+
+def history_labels(log, state) -> set:
+    """What the history of one case contained (generator coverage only, nothing is judged here): which procedures
+    were accepted as pending, which ended with success, links that came back on a handle used before."""
+    labels = set()
+    released = set()  # handles seen in a Disconnection Complete
+    last_page = None
+    last_cis_count = 0
+    for _t, d, pkt in log:
+        if d == world.H2C and pkt[0] == 0x01:
+            if int.from_bytes(pkt[1:3], 'little') == hci.HCI_READ_REMOTE_EXTENDED_FEATURES_COMMAND and len(pkt) >= 7:
+                last_page = pkt[6]
+            if int.from_bytes(pkt[1:3], 'little') == hci.HCI_LE_CREATE_CIS_COMMAND:
+                last_cis_count = pkt[4] if len(pkt) > 4 else 0
+            continue
+        if d != world.C2H or pkt[0] != 0x04:
+            continue
+        if pkt[1] == 0x0F and len(pkt) >= 7:
+            status, op = pkt[3], int.from_bytes(pkt[5:7], 'little')
+            if status == 0 and op in PROCEDURES and not (op == hci.HCI_LE_CREATE_CIS_COMMAND and not last_cis_count):
+                labels.add(f'accepted:{PROCEDURES[op]}')
+                if op == hci.HCI_LE_CREATE_CIS_COMMAND and last_cis_count > 1:
+                    labels.add('accepted:several_cis_at_once')
+                if op == hci.HCI_READ_REMOTE_EXTENDED_FEATURES_COMMAND and last_page is not None:
+                    labels.add('ext_features_page:' + ('within' if last_page <= 3 else 'beyond_peer_max'))
+            continue
+        kind = completion_kind(pkt)
+        if not kind:
+            continue
+        status, handle = _event_status_handle(pkt)
+        if status == 0:
+            labels.add(f'success:{kind}')
+        if kind == 'disconnection_complete' and status == 0:
+            released.add(handle)
+            if handle == state.get('classic_handle'):
+                labels.add('classic_link_disconnected')
+        if kind in ('le_connection_complete', 'connection_complete') and status == 0:
+            if handle in released or (handle in (state.get('handle'), state.get('classic_handle'))):
+                labels.add('link_back_on_used_handle')
+    return labels
 
 
 def _site(exc) -> str:
@@ -510,7 +822,32 @@ def run(ctx) -> None:
         run_case(ctx, c)
 
     ctx.hyp('object_programs', one_object_program, object_programs(), max_examples=ctx.n(400, 24000))
+
+    def family(label):
+        def one(c):
+            ctx.label(label)
+            run_case(ctx, c)
+        return one
+
+    ctx.hyp('link_programs', family('link_program'), link_programs(), max_examples=ctx.n(500, 32000))
+    ctx.hyp('cis_programs', family('cis_program'), cis_programs(), max_examples=ctx.n(300, 20000))
+    ctx.hyp('credit_programs', family('credit_program'), credit_programs(), max_examples=ctx.n(250, 16000))
     ctx.floor('object_program', 100)
+    # every procedure of the statement is entered (accepted as pending) and also ends well, on live links
+    for kind in sorted(set(PROCEDURES.values())):
+        ctx.floor(f'accepted:{kind}', 15)
+    for kind in ('le_connection_complete', 'connection_complete', 'disconnection_complete', 'le_cis_established',
+                 'le_read_remote_features_complete', 'read_remote_supported_features_complete',
+                 'read_remote_extended_features_complete', 'remote_name_request_complete', 'encryption_change'):
+        ctx.floor(f'success:{kind}', 10)
+    ctx.floor('accepted:several_cis_at_once', 10)
+    ctx.floor('ext_features_page:within', 10)
+    ctx.floor('ext_features_page:beyond_peer_max', 10)
+    ctx.floor('classic_link_disconnected', 10)
+    ctx.floor('link_back_on_used_handle', 10)
+    ctx.floor('situation:dual_peer_leaves', 10)
+    ctx.floor('credit_withheld', 50)
+    ctx.floor('credit_withheld_concurrent', 20)
     ctx.floor('concurrent_callers', 20)
     ctx.floor('unregistered_opcode', 20)
     ctx.floor('procedure_command', 20)
